@@ -2,6 +2,7 @@ import Driver.Loop
 import PyGqlModel.Json
 import PyGqlModel.Heap
 import PyGqlModel.HeapExt
+import PyGqlModel.Registry
 open PyGql PyGql.Heap
 
 namespace DriverC14
@@ -77,7 +78,8 @@ def cfgOfJson (j : J) : Cfg :=
     extFieldPy := j.boolD "extFieldPy", extIfaceRtype := j.boolD "extIfaceRtype", extUnionDesc := j.boolD "extUnionDesc",
     extUnionRtype := j.boolD "extUnionRtype", extArgPy := j.boolD "extArgPy", extInputPy := j.boolD "extInputPy",
     extKeepAll := j.boolD "extKeepAll", extSchemaDres := j.boolD "extSchemaDres",
-    extInputFieldExtended := j.boolD "extInputFieldExtended" }
+    extInputFieldExtended := j.boolD "extInputFieldExtended",
+    cloneRegsDeep := j.boolD "cloneRegsDeep" true }
 
 def strPairs (j : J) (k : String) : List (String × String) :=
   (j.arrD k).filterMap fun e => match e with | .arr [.str a, .str b] => some (a, b) | _ => none
@@ -156,8 +158,44 @@ def runSteps (cfg : Cfg) : List J → Heap → List Schema → Except String (He
       | none => .error "out-of-fuel-or-bad-op"
       | some (h', s') => runSteps cfg rest h' (if st.boolD "rejected" then ss else ss ++ [s'])
 
+/-! ### registries -/
+
+def dictOfJson (j : J) : RDict := (j.asObj?.getD []).filterMap fun e => e.2.asNat?.map fun n => (e.1, n)
+def dictToJson (d : RDict) : J := .obj (d.map fun e => (e.1, J.ofNat e.2))
+
+/-- `{type: {field: id}}` → outer map + inner dicts allocated in order -/
+def outerOfJson (h : RHeap) (j : J) : RHeap × List (String × Addr) :=
+  (j.asObj?.getD []).foldl (fun (acc : RHeap × List (String × Addr)) e =>
+    let r := acc.1.alloc (dictOfJson e.2)
+    (r.1, acc.2 ++ [(e.1, r.2)])) (h, [])
+
+def outerToJson (h : RHeap) (outer : List (String × Addr)) : J :=
+  .obj (outer.map fun e => (e.1, match h.read e.2 with | some d => dictToJson d | none => .null))
+
+def regsToJson (h : RHeap) (r : Registries) : J :=
+  .obj [("resolvers", outerToJson h r.resolvers), ("subscriptions", outerToJson h r.subscriptions),
+        ("default_resolvers", dictToJson r.defaultResolvers), ("default_resolver", ofOptNat r.defaultResolver)]
+
+def regOpOfJson (j : J) : RegOp :=
+  match j.strD "k" with
+  | "resolver" => .resolver (j.strD "t") (j.strD "f") (j.natD "fn")
+  | "subscription" => .subscription (j.strD "t") (j.strD "f") (j.natD "fn")
+  | _ => .default (j.strD "t") (j.natD "fn")
+
+/-- `c = source.clone(); <registrations on c>`: the registries of the source and of the clone afterwards -/
+def handleRegs (j : J) : J :=
+  let src := j.getD "source"
+  let r1 := outerOfJson ⟨[]⟩ (src.getD "resolvers")
+  let r2 := outerOfJson r1.1 (src.getD "subscriptions")
+  let regs : Registries := { resolvers := r1.2, subscriptions := r2.2, defaultResolvers := dictOfJson (src.getD "default_resolvers"),
+                             defaultResolver := optNat src "default_resolver" }
+  let c := cloneRegs (j.boolD "deep" true) r2.1 regs
+  let c2 := applyOps ((j.arrD "ops").map regOpOfJson) c
+  .obj [("source", regsToJson c2.1 regs), ("clone", regsToJson c2.1 c2.2)]
+
 def handle (j : J) : J :=
   match j.strD "op" with
+  | "regs" => handleRegs j
   | "run" =>
     let cfg := cfgOfJson (j.getD "cfg")
     let h : Heap := ⟨(j.arrD "objs").map objOfJson⟩
